@@ -616,6 +616,8 @@ class Interp(ExprMixin):
             if name in Z3_OPS:
                 if name in Z3_VARIADIC and len(targs) == 1 and targs[0][0] in ("list", "tuple"):
                     return app(name, *targs[0][1])
+                if name in Z3_VARIADIC and len(targs) == 1 and targs[0][0] == "starred" and targs[0][1][0] in ("list", "tuple"):
+                    return app(name, *targs[0][1][1])
                 if name in Z3_VARIADIC and len(targs) == 1 and targs[0][0] == "starred":
                     return app(name, ("each", (("loop", -1, "spread", targs[0][1]),), (), ("elem", ("loop", -1, "spread", targs[0][1]))))
                 return app(name, *targs)
